@@ -1,0 +1,59 @@
+package hashgraph
+
+import (
+	"fmt"
+
+	"github.com/mosaicnetworks/babble/src/common"
+	"github.com/mosaicnetworks/babble/src/peers"
+)
+
+// ValidateText returns an error if a string of the Frame cannot be encoded by
+// Frame.Marshal (cf. common.EncodableString). It must be called on a Frame
+// received from the network before hashing it.
+func (f *Frame) ValidateText() error {
+	ok := true
+	peer := func(p *peers.Peer) {
+		if p != nil {
+			ok = ok && common.EncodableString(p.PubKeyHex) && common.EncodableString(p.NetAddr) && common.EncodableString(p.Moniker)
+		}
+	}
+	event := func(fe *FrameEvent) {
+		if fe == nil || fe.Core == nil {
+			return
+		}
+		ok = ok && common.EncodableString(fe.Core.Signature)
+		for _, p := range fe.Core.Body.Parents {
+			ok = ok && common.EncodableString(p)
+		}
+		for _, bs := range fe.Core.Body.BlockSignatures {
+			ok = ok && common.EncodableString(bs.Signature)
+		}
+		for _, itx := range fe.Core.Body.InternalTransactions {
+			ok = ok && common.EncodableString(itx.Signature)
+			peer(&itx.Body.Peer)
+		}
+	}
+	for _, p := range f.Peers {
+		peer(p)
+	}
+	for _, ps := range f.PeerSets {
+		for _, p := range ps {
+			peer(p)
+		}
+	}
+	for k, r := range f.Roots {
+		ok = ok && common.EncodableString(k)
+		if r != nil {
+			for _, fe := range r.Events {
+				event(fe)
+			}
+		}
+	}
+	for _, fe := range f.Events {
+		event(fe)
+	}
+	if !ok {
+		return fmt.Errorf("Frame contains a string that is not valid text")
+	}
+	return nil
+}
